@@ -504,6 +504,7 @@ func cbData(how string, reject bool) func(x *cbExec) {
 				}
 			}
 			if !cbSame(cerr, first, true) {
+				x.fail("C16", "verdict", "%s (no callback): per-recipient verdicts %v; Close returned %s, want the first refusal (%s) - Close returns the server's verdict for THIS message", what, want, cbErrString(cerr), cbErrString(errOrNil(first)))
 				x.fail("C18", "close-without-callback", "%s (no callback): per-recipient verdicts %v; Close returned %s, want the first refusal (%s)", what, want, cbErrString(cerr), cbErrString(errOrNil(first)))
 			}
 		}
